@@ -97,6 +97,49 @@ struct R : Runner {
 	}
 };
 
+// IEEE-754 hardware as one more "implementation" of single and duble: the same operand streams through native float / double,
+// printed under the same family with block-type tag 0 ("32,8,1,0,0,0"), so that the Coq model (not the library) is what is
+// compared with the hardware -- C02: "single, duble ... agree with IEEE-754 hardware arithmetic"
+template <class F, class U, unsigned N, unsigned ES>
+struct HW : R<N, ES, U, true, false, false> {
+	using Base = R<N, ES, U, true, false, false>;
+	HW() : Base(false) {
+		this->cfg = std::to_string(N) + "," + std::to_string(ES) + ",1,0,0,0";
+		this->ops1.clear(); this->ops2.clear();
+		if (g_group == "arith") { this->ops1 = {OP_neg}; this->ops2 = {OP_add, OP_sub, OP_mul, OP_div}; }
+		if (g_group == "cmp") { this->ops2 = {OP_eq, OP_ne, OP_lt, OP_le, OP_gt, OP_ge}; }
+		if (g_group == "sqrt") { this->ops1 = {OP_sqrt}; }
+	}
+	// operands and results are cfloat encodings; only the infinity / NaN patterns differ from IEEE-754 (universal: inf = s.1..1.1..10,
+	// every other all-ones-exponent pattern is NaN), so those are translated; every finite pattern is passed through bit for bit
+	static constexpr unsigned FB = N - 1 - ES;
+	static F mk(const std::string& h) {
+		U u = (U)hexu64(h); U fr = u & ((U(1) << FB) - 1); U ex = (u >> FB) & ((U(1) << ES) - 1); bool sg = (u >> (N - 1)) & 1;
+		if (ex == ((U(1) << ES) - 1)) {
+			if (fr == ((U(1) << FB) - 2)) return sg ? -std::numeric_limits<F>::infinity() : std::numeric_limits<F>::infinity();
+			return std::numeric_limits<F>::quiet_NaN();
+		}
+		F f; memcpy(&f, &u, sizeof f); return f;
+	}
+	static std::string out(F f) {
+		U u; memcpy(&u, &f, sizeof f);
+		if (f != f) u = (U(1) << (N - 1)) - 1;                                            // quiet NaN pattern 0.1..1.1..11
+		else if (std::isinf(f)) u = (u & (U(1) << (N - 1))) | ((U(1) << (N - 1)) - 2);   // s.1..1.1..10
+		return hex_from_bits(N, [&](unsigned i) { return (u >> i) & 1; });
+	}
+	std::string run(int op, const std::vector<std::string>& a) override {
+		volatile F x = mk(a[0]); volatile F y = a.size() > 1 ? mk(a[1]) : F(0);
+		switch (op) {
+		case OP_add: return out(x + y); case OP_sub: return out(x - y); case OP_mul: return out(x * y); case OP_div: return out(x / y);
+		case OP_neg: return out(-x); case OP_sqrt: return out(std::sqrt((F)x));
+		case OP_eq: return b01(x == y); case OP_ne: return b01(x != y); case OP_lt: return b01(x < y);
+		case OP_le: return b01(x <= y); case OP_gt: return b01(x > y); case OP_ge: return b01(x >= y);
+		default: return "?unsupported";
+		}
+	}
+	void extra(const std::string&, Rng&, const std::function<void(int, std::vector<std::string>)>&) override {}
+};
+
 template <unsigned N, unsigned ES, typename BT, bool SUB, bool SUP, bool SAT> static void reg(bool sm) {
 	g_runners.emplace_back(new R<N, ES, BT, SUB, SUP, SAT>(sm));
 }
@@ -134,9 +177,11 @@ int main(int argc, char** argv) {
 #elif SET == 11
 	reg<32, 8, uint32_t, true, false, false>(false); reg<32, 8, uint8_t, true, false, false>(false);    // single
 	reg<32, 8, uint16_t, false, false, true>(false); reg<40, 8, uint32_t, true, false, false>(false);
+	g_runners.emplace_back(new HW<float, uint32_t, 32, 8>());
 #elif SET == 12
 	reg<64, 11, uint32_t, true, false, false>(false); reg<64, 11, uint64_t, true, false, false>(false); // duble
 	reg<48, 9, uint16_t, true, false, false>(false);
+	g_runners.emplace_back(new HW<double, uint64_t, 64, 11>());
 #elif SET == 13
 	reg<80, 11, uint16_t, true, false, false>(false); reg<128, 15, uint32_t, true, false, false>(false); // quad
 	reg<100, 15, uint8_t, true, false, false>(false);
